@@ -181,7 +181,9 @@ func analyseRun(cx *Ctx) (*runInfo, error) {
 		for _, in := range b.Instrs {
 			switch x := in.(type) {
 			case *ssa.Call:
-				if calleeName(&x.Call) == "context.WithCancel" || calleeName(&x.Call) == "context.WithCancelCause" {
+				if (calleeName(&x.Call) == "context.WithCancel" || calleeName(&x.Call) == "context.WithCancelCause") && len(x.Call.Args) > 0 && x.Call.Args[0] == ssa.Value(ri.ctx) {
+					// (derived from the caller's context itself: anything else does not see
+					// the caller's cancellation and is not recognised as the derived context)
 					ri.withCancel = x
 					for _, r := range *x.Referrers() {
 						if e, ok := r.(*ssa.Extract); ok {
@@ -654,6 +656,7 @@ func c08(cx *Ctx, r *ev.Report) {
 	default:
 		r.Hold("C08/run-automaton/func=(*CPU).Run", ruleA, pos, "shape")
 	}
+	bpFresh(cx, r, ri.run)
 	// all three exits exist (otherwise the rule is matched vacuously)
 	for _, want := range [][2]string{{"cancelled->ctxerr", retCtx}, {"breakpoint-hit->ErrBreakPoint", retBP}, {"halted->nil", retNil}} {
 		key := "C08/run-exits/exit=" + want[0]
@@ -778,6 +781,16 @@ func c08(cx *Ctx, r *ev.Report) {
 			continue
 		}
 		ok := s.Fn == ri.run || below[s.Fn.String()]
+		if !ok && semantic && len(sem.violations) == 0 {
+			// a helper the value summary of Run interpreted in line (Run's body moved
+			// into an unexported method): what it does to HALT was judged by value
+			// (cleared once before the loop, untouched by Run afterwards)
+			for _, f := range sem.funcs {
+				if f == s.Fn.String() {
+					ok = true
+				}
+			}
+		}
 		r.Check(ok, key, ruleW, cx.P.Pos(s.Pos.Pos()), "shape", fmt.Sprintf("%s writes CPU.HALT (%s) outside instruction execution", s.Fn, s.Kind))
 	}
 	r.AddFloor("halt_write_sites", len(sites), 1)
@@ -831,4 +844,184 @@ func reachableFromStepOrRun(cx *Ctx) map[*ssa.Function]bool {
 		}
 	}
 	return out
+}
+
+// bpFresh: membership in BreakPoints is judged on the field as it is after the
+// Step, so every load of CPU.BreakPoints (directly or in a helper) that can be
+// followed by a Step in the same function must also be executed again after
+// that Step - a load hoisted before the loop (the map, its nil-ness or its
+// length cached on entry) goes stale when a memory or port callback replaces
+// or creates the set while Run executes.
+func bpFresh(cx *Ctx, r *ev.Report, run *ssa.Function) {
+	rule := "BREAKPOINTS-FRESH: in Run and its helpers (outside Step) every load of CPU.BreakPoints from which a Step can follow is executed again after that Step (nothing derived from the set is cached across Steps)"
+	isBPLoad := func(in ssa.Instruction) bool {
+		fa, ok := in.(*ssa.FieldAddr)
+		if !ok {
+			return false
+		}
+		pt, ok := fa.X.Type().Underlying().(*types.Pointer)
+		if !ok {
+			return false
+		}
+		st, ok := pt.Elem().Underlying().(*types.Struct)
+		if !ok || fa.Field >= st.NumFields() || st.Field(fa.Field).Name() != "BreakPoints" {
+			return false
+		}
+		n, ok := pt.Elem().(*types.Named)
+		return ok && n.Obj().Name() == "CPU"
+	}
+	callees := func(in ssa.Instruction) []*ssa.Function {
+		var out []*ssa.Function
+		switch x := in.(type) {
+		case ssa.CallInstruction:
+			if f := x.Common().StaticCallee(); f != nil && load.InModule(f) && f.Blocks != nil {
+				out = append(out, f)
+			}
+			if mc, ok := x.Common().Value.(*ssa.MakeClosure); ok {
+				if f, ok := mc.Fn.(*ssa.Function); ok {
+					out = append(out, f)
+				}
+			}
+		}
+		return out
+	}
+	reachStep := map[*ssa.Function]int{} // 0 unknown, 1 no, 2 yes, 3 in progress
+	var reaches func(f *ssa.Function) bool
+	reaches = func(f *ssa.Function) bool {
+		if f == cx.E.Step {
+			return true
+		}
+		switch reachStep[f] {
+		case 1, 3:
+			return false
+		case 2:
+			return true
+		}
+		reachStep[f] = 3
+		res := false
+		for _, b := range f.Blocks {
+			for _, in := range b.Instrs {
+				for _, g := range callees(in) {
+					if reaches(g) {
+						res = true
+					}
+				}
+			}
+		}
+		reachStep[f] = 1
+		if res {
+			reachStep[f] = 2
+		}
+		return res
+	}
+	loadsBP := map[*ssa.Function]int{}
+	var loads func(f *ssa.Function) bool
+	loads = func(f *ssa.Function) bool {
+		if f == cx.E.Step {
+			return false // whatever Step does itself happens within the Step
+		}
+		switch loadsBP[f] {
+		case 1, 3:
+			return false
+		case 2:
+			return true
+		}
+		loadsBP[f] = 3
+		res := false
+		for _, b := range f.Blocks {
+			for _, in := range b.Instrs {
+				if isBPLoad(in) {
+					res = true
+				}
+				for _, g := range callees(in) {
+					if loads(g) {
+						res = true
+					}
+				}
+			}
+		}
+		loadsBP[f] = 1
+		if res {
+			loadsBP[f] = 2
+		}
+		return res
+	}
+	var det []string
+	examined, loadsSeen := 0, 0
+	seen := map[*ssa.Function]bool{}
+	var visit func(f *ssa.Function)
+	visit = func(f *ssa.Function) {
+		if f == nil || seen[f] || f == cx.E.Step || f.Blocks == nil {
+			return
+		}
+		seen[f] = true
+		examined++
+		for _, af := range f.AnonFuncs {
+			visit(af)
+		}
+		// blocks with a call through which a Step happens, and blocks that load the set
+		// (positions within a block matter when both are in one block)
+		type site struct {
+			b   *ssa.BasicBlock
+			idx int
+			in  ssa.Instruction
+		}
+		var steps, bps []site
+		for _, b := range f.Blocks {
+			for i, in := range b.Instrs {
+				isStep, isLoad := false, isBPLoad(in)
+				for _, g := range callees(in) {
+					visit(g)
+					if reaches(g) {
+						isStep = true
+					} else if loads(g) {
+						isLoad = true
+					}
+				}
+				if isStep {
+					steps = append(steps, site{b, i, in})
+				}
+				if isLoad {
+					bps = append(bps, site{b, i, in})
+				}
+			}
+		}
+		loadsSeen += len(bps)
+		if len(steps) == 0 || len(bps) == 0 {
+			return
+		}
+		// reachability between blocks (one or more edges)
+		reach := map[*ssa.BasicBlock]map[*ssa.BasicBlock]bool{}
+		for _, b := range f.Blocks {
+			m := map[*ssa.BasicBlock]bool{}
+			var work []*ssa.BasicBlock
+			work = append(work, b.Succs...)
+			for len(work) > 0 {
+				x := work[len(work)-1]
+				work = work[:len(work)-1]
+				if m[x] {
+					continue
+				}
+				m[x] = true
+				work = append(work, x.Succs...)
+			}
+			reach[b] = m
+		}
+		before := func(a, b site) bool { // b can execute after a
+			return a.b == b.b && a.idx < b.idx || reach[a.b][b.b]
+		}
+		for _, l := range bps {
+			for _, s := range steps {
+				if before(l, s) && !before(s, l) {
+					det = append(det, fmt.Sprintf("%s: CPU.BreakPoints is read in %s before the Step at %s and not again after it: a set replaced or created by a callback during that Step is not seen", cx.P.Pos(l.in.Pos()), f, cx.P.Pos(s.in.Pos())))
+				}
+			}
+		}
+	}
+	visit(run)
+	sort.Strings(det)
+	r.Check(len(det) == 0, "C08/breakpoints-fresh/func=(*CPU).Run", rule, cx.P.Pos(run.Pos()), "shape", uniqueStrings(det)...)
+	r.Analysed["breakpoint_set_loads_examined"] = loadsSeen
+	r.AddFloor("breakpoint_set_loads", loadsSeen, 1)
+	_ = examined
 }
